@@ -206,7 +206,11 @@ theorem retailE_drop (n : Nat) (tl' : List Frame) (E : List Frame) (hE : E ≠ [
 
 theorem setNameIfLambda_retail (n : Nat) (tl' : List Frame) (s : ES) (k : String) (v : Value) :
     setNameIfLambda (retail n tl' s) k v = retail n tl' (setNameIfLambda s k v) := by
-  cases v <;> rfl
+  cases v with
+  | lambda id a b sc =>
+    simp only [setNameIfLambda, retail]
+    cases nameOf s.names id <;> rfl
+  | _ => rfl
 
 /-! ### do-block statements keep the keys of the block frame -/
 
@@ -295,7 +299,7 @@ theorem evalDoStmt_assign_binds (ops : NumOps) (fuel depth : Nat) (x : String) (
         dsimp only at h
         cases h
         simp only
-        generalize (setNameIfLambda s2 x val).env = E
+        generalize (setNameIfLambda s2 x _).env = E
         cases E with
         | nil => simp [envInsert, lookupAL]
         | cons f R => simp [envInsert, lookupAL_insertAL_self]
@@ -485,9 +489,11 @@ theorem coin_group : ∀ fuel : Nat,
         · rfl
         · rename_i val _
           rw [setNameIfLambda_retail]
-          have hk2 : (setNameIfLambda s1 nm val).env ≠ [] := by
+          simp only [show (retail n tl' s).nextId = s.nextId from rfl]
+          generalize createdSince s.nextId val = cv
+          have hk2 : (setNameIfLambda s1 nm cv).env ≠ [] := by
             rw [setNameIfLambda_env]; exact ne_nil_of_le hn hk1
-          generalize setNameIfLambda s1 nm val = s2 at hk2
+          generalize setNameIfLambda s1 nm cv = s2 at hk2
           simp only [retail, retailE_insert n tl' s2.env nm val hn hk2]
       | lambda args body =>
         simp only [plain] at hp
@@ -654,9 +660,11 @@ theorem coin_group : ∀ fuel : Nat,
         dsimp only
         rename_i val
         rw [setNameIfLambda_retail]
-        have hk2 : (setNameIfLambda s1 nm val).env ≠ [] := by
+        simp only [show (retail n tl' s).nextId = s.nextId from rfl]
+        generalize createdSince s.nextId val = cv
+        have hk2 : (setNameIfLambda s1 nm cv).env ≠ [] := by
           rw [setNameIfLambda_env]; exact ne_nil_of_le hn hk1
-        generalize setNameIfLambda s1 nm val = s2 at hk2
+        generalize setNameIfLambda s1 nm cv = s2 at hk2
         simp only [retail, retailE_insert n tl' s2.env nm val hn hk2]
       | _ => exact ihE depth _ n s hd hn hk hp hA
     · -- evalDo
